@@ -451,19 +451,20 @@ def _replay_bursts(f):
     return _run(burst_case(idx, f['input']['lines_per_read'])) is None
 
 
-@harness_canary('C14', 'scheduled callbacks run newest first (replies out of command order)')
+@harness_canary('C14', 'the whole command queue handed over in one loop iteration (immediate answers overtake scheduled ones)')
 def _hc_order():
-    from exabgp.reactor.asynchronous import ASYNC
+    from exabgp.reactor.api.processes import Processes
 
-    real = ASYNC.schedule
+    real = Processes.received_async
 
-    def newest_first(self, uid, command, callback):
-        self._async.appendleft((uid, callback))
+    def drain(self):
+        while self._command_queue:
+            yield self._command_queue.popleft()
 
-    case = ((0, 4), 2)  # accepted for all, then a value out of range: done, error -- both scheduled
+    case = ((0, 3), 2)  # accepted (answered by a scheduled callback), then unknown (answered at once)
     ok = _run(burst_case(*case)) is None
-    ASYNC.schedule = newest_first
+    Processes.received_async = drain
     try:
         return ok and _run(burst_case(*case)) is not None
     finally:
-        ASYNC.schedule = real
+        Processes.received_async = real
